@@ -153,6 +153,9 @@ func (ex *Exec) unop(instr *ssa.UnOp, x value) value {
 func (ex *Exec) toTerm(v value, w int) *Term {
 	switch v := v.(type) {
 	case *Term:
+		if ex.boundMask != 0 || ex.boundBig {
+			return ex.subst(v)
+		}
 		return v
 	case I:
 		return ex.tc.BV(uint64(v), w)
